@@ -390,6 +390,11 @@ func (qz *quantizer) prov(v ssa.Value, d int) string {
 				if n, ok := qz.elemVar[t]; ok {
 					return n
 				}
+				if qz.idxProv && isRangeIndexOf(ia.Index, ia.X) != nil {
+					// position-exact mode: only the element at a range induction variable is "the current
+					// element"; any other index names a particular entry
+					return "at(" + qz.prov(ia.X, d+1) + ", " + qz.prov(ia.Index, d+1) + ")"
+				}
 				return "elem(" + qz.prov(ia.X, d+1) + ")"
 			}
 			if fa, ok := t.X.(*ssa.FieldAddr); ok {
